@@ -23,6 +23,8 @@ struct Gen<'a, R: RoleType, T: IsPacketId> {
     force_clean: Option<bool>,   // next handshake: clean start forced on/off
     force_ok: bool,              // next handshake completes successfully (no refusal, always answered)
     force_persist: bool,         // next handshake asks for a persistent session (v5: Session Expiry Interval)
+    force_ska: Option<u16>,      // next CONNACK carries this Server Keep Alive
+    force_own_rm: Option<u16>,   // the Receive Maximum WE announce in the next CONNECT / CONNACK we send
 }
 
 impl<'a, R: RoleType, T: IsPacketId> Gen<'a, R, T> {
@@ -107,7 +109,9 @@ impl<'a, R: RoleType, T: IsPacketId> Gen<'a, R, T> {
         } else if self.rng.chance(1, 3) {
             ps.push(P::U32(17, *self.rng.pick(&[0u32, 0, 100, 4294967295])));
         }
-        if for_connack && self.rng.chance(1, 3) {
+        if for_connack && self.force_ska.is_some() {
+            ps.push(P::U16(19, self.force_ska.unwrap()));
+        } else if for_connack && self.rng.chance(1, 3) {
             ps.push(P::U16(19, *self.rng.pick(&[0u16, 1, 7, 60])));
         }
         if self.rng.chance(1, 6) {
@@ -130,7 +134,11 @@ impl<'a, R: RoleType, T: IsPacketId> Gen<'a, R, T> {
         let force_ok = self.force_ok;
         if self.acts_as_client() {
             let v = self.ver();
-            let ps = self.conn_props(false);
+            let mut ps = self.conn_props(false);
+            if let Some(rm) = self.force_own_rm {
+                ps.retain(|p| !matches!(p, P::U16(33, _)));
+                ps.push(P::U16(33, rm));
+            }
             let ka = self.ka();
             self.op(format!("send {} {}", v, hex(&w_connect(v, clean, ka, b"cid", &ps))));
             if force_ok || self.rng.chance(9, 10) {
@@ -168,7 +176,11 @@ impl<'a, R: RoleType, T: IsPacketId> Gen<'a, R, T> {
                 let v = self.ver();
                 let sp = !clean && (force_ok || self.rng.chance(2, 3));
                 let rc = if force_ok || self.rng.chance(9, 10) { 0 } else { *self.rng.pick(&[1u8, 2, 5, 0x80, 0x87]) };
-                let ps = self.conn_props(true);
+                let mut ps = self.conn_props(true);
+                if let Some(rm) = self.force_own_rm {
+                    ps.retain(|p| !matches!(p, P::U16(33, _)));
+                    ps.push(P::U16(33, rm));
+                }
                 self.op(format!("send {} {}", v, hex(&w_connack(v, sp, rc, &ps))));
             }
         }
@@ -272,6 +284,9 @@ impl<'a, R: RoleType, T: IsPacketId> Gen<'a, R, T> {
             self.after_send(id);
             self.inflight.push((id, qos));
         }
+        if v == 5 && self.rng.chance(1, 3) {
+            self.op("vacancy".into());
+        }
     }
 
     fn peer_ack(&mut self) {
@@ -299,6 +314,9 @@ impl<'a, R: RoleType, T: IsPacketId> Gen<'a, R, T> {
         let ps: Option<&[P]> = if rc.is_some() && self.rng.chance(1, 3) { Some(&[]) } else { None };
         let bytes = w_ack(v, pw, nib, id, rc, ps);
         self.recv(bytes);
+        if v == 5 && self.rng.chance(1, 3) {
+            self.op("vacancy".into());
+        }
         // bookkeeping (optimistic)
         if nib == 4 || nib == 7 {
             self.inflight.retain(|x| x.0 != id);
@@ -308,13 +326,18 @@ impl<'a, R: RoleType, T: IsPacketId> Gen<'a, R, T> {
             self.inflight.retain(|x| x.0 != id);
             if self.s.field("apr") == "1" {
                 self.rel_wait.push(id);
-            } else if self.rng.chance(3, 4) && (!self.legal || self.pubrec_done(id)) {
+            } else if self.rng.chance(3, 4) && (!self.legal || (qos == 2 && pick_inflight && self.pubrec_delivered(id) && self.pubrec_done(id))) {
                 // manual PUBREL
                 let b = w_ack(v, pw, 6, id, None, None);
                 self.op(format!("send {} {}", v, hex(&b)));
                 self.rel_wait.push(id);
             }
         }
+    }
+
+    /// the last call delivered a PUBREC for `id`
+    fn pubrec_delivered(&self, id: u64) -> bool {
+        self.s.out_lines.last().map(|l| l.split(" | ").nth(2).unwrap_or("").contains(&format!("recv{{k=5,v={},sz=", self.s.version())) && l.contains(&format!(",pid={id},"))).unwrap_or(false)
     }
 
     /// the PUBREC for `id` has been processed: the id is in use, in no wait set, not stored
@@ -725,6 +748,8 @@ fn walk<R: RoleType, T: IsPacketId>(role: &'static str, ver: u8, steps: usize, r
         force_clean: None,
         force_ok: false,
         force_persist: false,
+        force_ska: None,
+        force_own_rm: None,
     };
     // options
     for f in ["off", "apr", "aping", "amap", "arep"] {
@@ -739,6 +764,42 @@ fn walk<R: RoleType, T: IsPacketId>(role: &'static str, ver: u8, steps: usize, r
     if g.rng.chance(1, 6) {
         let t = *g.rng.pick(&["0", "700"]);
         g.op(format!("interval {t}"));
+    }
+    if g.legal && g.s.version() == 5 && g.rng.chance(1, 6) {
+        // directed: interval priority (override set before CONNACK, Server Keep Alive present,
+        // override withdrawn afterwards, then a send)
+        g.op("interval 700".into());
+        g.force_ok = true;
+        g.force_ska = Some(*g.rng.pick(&[0u16, 3, 7]));
+        g.handshake();
+        g.force_ok = false;
+        g.force_ska = None;
+        g.op("interval none".into());
+        g.send_publish();
+    }
+    if g.legal && g.s.version() == 5 && g.rng.chance(1, 6) {
+        // directed: inbound QoS 2 interrupted before PUBREL, resume, retransmission, then more
+        // QoS>0 PUBLISH than our announced Receive Maximum
+        let rm = *g.rng.pick(&[1u16, 2]);
+        let pw = g.pw();
+        g.force_ok = true;
+        g.force_persist = true;
+        g.force_clean = Some(false);
+        g.force_own_rm = Some(rm);
+        g.handshake();
+        if g.status() == "C" {
+            g.op(format!("recv {}", hex(&w_publish(5, pw, 2, false, false, b"a", 1, &[], b"m1"))));
+            g.op("closed".into());
+            g.handshake();
+            g.op(format!("recv {}", hex(&w_publish(5, pw, 2, true, false, b"a", 1, &[], b"m1"))));
+            for i in 0..rm as u64 {
+                g.op(format!("recv {}", hex(&w_publish(5, pw, 1, false, false, b"b", 2 + i, &[], b"m2"))));
+            }
+        }
+        g.force_ok = false;
+        g.force_persist = false;
+        g.force_clean = None;
+        g.force_own_rm = None;
     }
     if g.rng.chance(1, 8) {
         // resume from an export made by a previous process
@@ -790,7 +851,7 @@ fn reuse_trial<R: RoleType, T: IsPacketId>(role: &'static str, ver: u8, steps: u
     let focus = rng.below(6) as u8;
     let mut g = Gen::<R, T> {
         s: Sess::new(ver), rng, role, my_ids: vec![], inflight: vec![], rel_wait: vec![], peer_pubs: vec![], subs: vec![],
-        peer_mps: None, focus, legal: true, started: false, force_clean: None, force_ok: false, force_persist: false,
+        peer_mps: None, focus, legal: true, started: false, force_clean: None, force_ok: false, force_persist: false, force_ska: None, force_own_rm: None,
     };
     for f in ["off", "apr", "aping", "amap", "arep"] {
         if g.rng.chance(2, 5) {
@@ -915,7 +976,7 @@ fn reuse_trial<R: RoleType, T: IsPacketId>(role: &'static str, ver: u8, steps: u
 fn restore_trial<R: RoleType, T: IsPacketId>(role: &'static str, ver: u8, steps: usize, rng: &mut Rng, name: &str, out: &mut dyn Write) -> bool {
     let mut g = Gen::<R, T> {
         s: Sess::new(ver), rng, role, my_ids: vec![], inflight: vec![], rel_wait: vec![], peer_pubs: vec![], subs: vec![],
-        peer_mps: None, focus: 1, legal: true, started: false, force_clean: None, force_ok: false, force_persist: false,
+        peer_mps: None, focus: 1, legal: true, started: false, force_clean: None, force_ok: false, force_persist: false, force_ska: None, force_own_rm: None,
     };
     g.op("set apr 1".into());
     for f in ["off", "aping", "amap", "arep"] {
